@@ -17,7 +17,8 @@
 (*                       DoShrink, retry                                              *)
 (*   RENAME              lock the two directories sorted; target exists: abort,       *)
 (*                       lockInodes(sorted 3 or 4), validateRename, retry             *)
-(*   READDIRPLUS         lock dir, then every child while holding it (KF-D13)         *)
+(*   READDIRPLUS         lock dir, then the children with a larger number (as repaired;  *)
+(*                       every child in the negative control: the repaired KF-D13)       *)
 (*   shrinker thread     lock inode, free some, commit, repeat                        *)
 (*                                                                                  *)
 (* Checked exhaustively for a few inodes, two clients and the shrinker:              *)
@@ -135,7 +136,7 @@ Menu ==
         Op("GETATTR", H(2), A), [Op("WRITE", H(2), A) EXCEPT !.big = TRUE], Op("TRUNC", H(2), A),
         [Op("RENAME", H(3), A) EXCEPT !.h2 = H(1), !.n2 = B], [Op("RENAME", H(3), A) EXCEPT !.h2 = H(3), !.n2 = B],
         [Op("RENAME", H(1), B) EXCEPT !.h2 = H(3), !.n2 = A], [Op("RENAME", H(3), B) EXCEPT !.h2 = H(3), !.n2 = A]}
-       \cup (IF PlusLocksKids THEN {Op("READDIRPLUS", H(1), A), Op("READDIRPLUS", H(3), A)} ELSE {})
+       \cup {Op("READDIRPLUS", H(1), A), Op("READDIRPLUS", H(3), A)}
   ELSE {[Op("WRITE", H(2), A) EXCEPT !.v = 1], Op("TRUNC", H(2), A), Op("GETATTR", H(2), A), Op("REMOVE", H(1), A), Op("CREATE", H(1), A),
         Op("CREATE", H(1), B), Op("LOOKUP", H(1), A), [Op("WRITE", H(2), A) EXCEPT !.v = 2]}
 
@@ -311,14 +312,17 @@ R4(c) ==
           Finish(c, "OK", <<>>, f2, 0) /\ shq' = shq \cup StartShr(fs, f2)
   /\ UNCHANGED taken
 
-(* READDIRPLUS as built (known finding KF-D13): every child is locked while the directory is held, in entry order *)
+(* READDIRPLUS: PlusLocksKids = TRUE is the code as it was (every child locked while the directory is held, the      *)
+(* repaired finding KF-D13); FALSE is the code as repaired (only children with a larger number are locked; the reply  *)
+(* carries no attributes for the others, which the atomic specification leaves open: rv is compared for names only)   *)
 P1(c) == cs[c].pc = "p1" /\ Take(c, cs[c].op.h[1], "p2")
 P2(c) ==
   /\ cs[c].pc = "p2"
   /\ LET o == cs[c].op  d == o.h[1] IN
      IF ~Live(fs, o.h) THEN Finish(c, "STALE", <<>>, fs, 0)
      ELSE IF fs.kind[d] # "dir" THEN Finish(c, "ERR", <<>>, fs, 0)
-     ELSE LET kids == {fs.ents[d][n] : n \in Names} \ {0, d}
+     ELSE LET all  == {fs.ents[d][n] : n \in Names} \ {0, d}
+              kids == IF PlusLocksKids THEN all ELSE {i \in all : i > d}     \* as repaired: only larger numbers are locked
               seq == [k \in 1..Cardinality(kids) |-> CHOOSE i \in kids : Cardinality({j \in kids : j > i}) = k - 1]   \* any fixed order; here descending
           IN Set(c, [cs[c] EXCEPT !.pc = "p3", !.q = seq]) /\ UNCHANGED <<fs, lock, bad>>
   /\ UNCHANGED <<taken, shq>>
@@ -328,12 +332,16 @@ P3(c) ==
      THEN LET d == cs[c].op.h[1] IN
           Finish(c, "OK", [n \in Names |-> IF fs.ents[d][n] = 0 THEN <<0, 0>> ELSE <<fs.ents[d][n], fs.gen[fs.ents[d][n]]>>], fs, 0)
      ELSE /\ lock[Head(cs[c].q)] = 0
-          /\ lock' = [lock EXCEPT ![Head(cs[c].q)] = c] /\ Set(c, [cs[c] EXCEPT !.q = Tail(@)]) /\ UNCHANGED <<fs, bad>>
+          /\ lock' = [lock EXCEPT ![Head(cs[c].q)] = c] /\ Goto(c, "p4") /\ UNCHANGED <<fs, bad>>
   /\ UNCHANGED <<taken, shq>>
+P4(c) ==    \* Apply releases the child again before it goes on: directory + one child at a time
+  /\ cs[c].pc = "p4"
+  /\ lock' = [lock EXCEPT ![Head(cs[c].q)] = 0] /\ Set(c, [cs[c] EXCEPT !.pc = "p3", !.q = Tail(@)])
+  /\ UNCHANGED <<fs, bad, taken, shq>>
 
 Step(c) == Start(c) \/ H1(c) \/ H2(c) \/ H3(c) \/ H4(c) \/ D1(c) \/ D2(c) \/ D3(c) \/ D4(c) \/ D5(c) \/ D6(c)
            \/ C1(c) \/ C2(c) \/ C3(c) \/ C4(c) \/ C5(c) \/ C6(c) \/ R1(c) \/ R1a(c) \/ RStale(c) \/ R2(c) \/ R3(c) \/ R4(c)
-           \/ P1(c) \/ P2(c) \/ P3(c)
+           \/ P1(c) \/ P2(c) \/ P3(c) \/ P4(c)
 
 (* background shrinker: one transaction per step, on an inode of its queue *)
 ShrLock == \E i \in shq : lock[i] = 0 /\ ~(\E j \in Inums : lock[j] = SHR)
